@@ -72,6 +72,10 @@ func c04Jobs(tier string) []string {
 	add("or=w,devs=ob,mss=100,ws=3,rcvbuf=4096,pd=6x1000,read=stall,b=1", 2)
 	add("or=w,devs=o,mss=1460,ws=7,pd=1+7+33+1000+1,read=eager,b=1", 2)
 	add("or=w,devs=o,mss=1460,ws=-1,pd=1+7+33+1000+1,read=eager,b=1", 2)
+	// option space: SACK blocks (and timestamps) in data segments while the peer's data has a hole
+	add("or=w,devs=e,mss=1460,ws=-1,psack=1,sack=1,pd=100+100+100,w=1460+3000,b=1", 1)
+	add("or=w,devs=e,mss=1460,ws=2,psack=1,sack=1,ts=1,pd=100+100+100,w=1460+3000,b=1", 1)
+	add("or=w,devs=e,mss=536,ws=-1,psack=1,sack=1,mtu=576,pd=50+50,w=536+1100,b=1", 1)
 	if tier == "thorough" {
 		add(base+",mss=88,ws=-1,w=88+89+440,ptb=68,b=2", 16)
 		add(base+",mss=1460,ws=2,w=1460+1461,ptb=576,b=2", 16)
